@@ -91,7 +91,8 @@ class Apply(ast.NodeTransformer):
 
     def visit_BinOp(self, n):
         self.generic_visit(n)
-        if self.site[3] == "binop" and self.match(n) and not self.done:
+        # chained operators share their start position: the site is the one whose operator differs from the replacement
+        if self.site[3] == "binop" and self.match(n) and not self.done and isinstance(n.op, ast.Add if self.site[4] == "-" else ast.Sub):
             n.op = ast.Sub() if self.site[4] == "-" else ast.Add()
             self.done = True
         return n
@@ -124,6 +125,13 @@ def run_one(job):
     env = dict(os.environ, PYTHONPATH="%s/src:%s" % (wd, ROOT))
     out = wd + "/o.json"
     t0 = time.time()
+    if os.environ.get("MUT_FULL"):
+        # second stage: the deductive layer of the registered check on the mutated copy (KVC_REPO), without the bounded layer
+        r = subprocess.run([os.path.join(ROOT, "check"), prop, "--no-bounded"], env=dict(os.environ, KVC_REPO=wd), capture_output=True, text=True, timeout=3000)
+        und = r.stdout.count("\nUNDECIDED") + r.stdout.startswith("UNDECIDED")
+        res = "killed" if r.returncode == 1 else ("reacted" if und else "SURVIVED")
+        shutil.rmtree(wd, ignore_errors=True)
+        return prop, fname, site, res, "deductive: rc=%d undecided=%d" % (r.returncode, und), round(time.time() - t0, 1)
     try:
         r = subprocess.run(["/venv/bin/python", "-B", os.path.join(ROOT, "rt", "c%s.py" % prop[1:]), "--tier", "quick", "--seed", "1", "--out", out],
                            env=env, capture_output=True, text=True, timeout=600)
@@ -141,6 +149,18 @@ def run_one(job):
 
 def main():
     props = sys.argv[1:] or sorted(TARGETS)
+    only = None
+    if os.environ.get("MUT_FULL"):
+        # only the survivors of the first stage
+        only = set()
+        for prop in props:
+            try:
+                for l in open(os.path.join(ROOT, "out", "mutants_%s.tsv" % prop)):
+                    f = l.rstrip("\n").split("\t")
+                    if f[1] == "SURVIVED":
+                        only.add((prop, f[2], f[3]))
+            except OSError:
+                pass
     jobs = []
     for prop in props:
         k = 0
@@ -148,7 +168,8 @@ def main():
             v = Sites(funcs)
             v.visit(ast.parse(open(os.path.join(SRC, PKG, fname)).read()))
             for site in v.sites:
-                jobs.append((prop, fname, site, k))
+                if only is None or (prop, "%s:%d:%d" % (fname, site[1], site[2]), "%s->%s" % (site[3], site[4])) in only:
+                    jobs.append((prop, fname, site, k))
                 k += 1
     print("%d mutants" % len(jobs), flush=True)
     os.makedirs("/var/tmp/mut", exist_ok=True)
@@ -159,12 +180,13 @@ def main():
     shutil.rmtree("/var/tmp/mut", ignore_errors=True)
     for prop in sorted(res):
         rows = sorted(res[prop], key=lambda t: (t[0], t[1][1], t[1][2]))
-        with open(os.path.join(ROOT, "out", "mutants_%s.tsv" % prop), "w") as f:
+        with open(os.path.join(ROOT, "out", "mutants_%s%s.tsv" % (prop, "_full" if os.environ.get("MUT_FULL") else "")), "w") as f:
             for fname, site, r, detail, dt in rows:
                 f.write("%s\t%s\t%s:%d:%d\t%s->%s\t%s\t%s\t%ss\n" % (prop, r, fname, site[1], site[2], site[3], site[4], site[0], detail, dt))
         n = len(rows)
         s = sum(1 for x in rows if x[2] == "SURVIVED")
-        print("%s: %d mutants, %d killed, %d survived" % (prop, n, n - s, s), flush=True)
+        rc = sum(1 for x in rows if x[2] == "reacted")
+        print("%s: %d mutants, %d killed, %d reacted (obligation no longer discharged), %d survived" % (prop, n, n - s - rc, rc, s), flush=True)
 
 
 if __name__ == "__main__":
